@@ -247,6 +247,11 @@ K["access_2d_range_range_vbb"] = dict(
             "proof { lemma_cnt_lt(ix1.d@, ix1.d@.len() as int); lemma_cnt_lt(ix2.d@, ix2.d@.len() as int); lemma_cnt_mono(ix2.d@, c as int + 1, ix2.d@.len() as int); lemma_cnt_bounds(ix2.d@, c as int); }")])
 
 
+# loop variable names the contracts above were written with (by loop ordinal); see vmat.mode_fn
+LOOPVARS = {'access_1d': [], 'access_2d': [], 'access_1d_slice': ['i'], 'access_1d_all': ['i'], 'access_col': ['i'], 'access_row': ['i'], 'access_2d_row_slice': ['c'], 'access_2d_col_slice': ['c'], 'access_2d_slice_all': ['c', 'r'], 'access_1d_slice_bool_v': ['i', 'i'], 'access_2d_col_slice_bool': ['i', 'i'], 'access_2d_row_slice_bool': ['i', 'i'], 'access_2d_slice_all_bool': ['i', 'k', 'i'], 'access_2d_range_range_vuu': ['r', 'c'], 'access_2d_range_range_vub': ['r', 'c'], 'access_2d_range_range_vbu': ['r', 'c'], 'access_2d_range_range_vbb': ['r', 'c']}
+for _n, _v in LOOPVARS.items():
+    K[_n]["loopvars"] = _v
+
 MODES = {
     "value": "%s (structs %s): with every index valid, the kernel returns normally and the output holds exactly the elements the 1-based column-major model selects, in reference order and documented shape (any matrix size)",
     "reject": "%s (structs %s): if the kernel returns normally then every addressed position exists (0, or a position beyond the dimension, never yields a value)",
